@@ -3,6 +3,5 @@ NEXT Next
 INVARIANT LawInverse
 INVARIANT LawCanon
 INVARIANT LawDevScope
-INVARIANT LawWs
 INVARIANT Emit
 CHECK_DEADLOCK FALSE
